@@ -57,17 +57,39 @@ fn worker(once: bool) {
     // Watchdog: the token holder made no scheduler call for 30 s of real time
     // while a simulation is active => a hook is missing: harness error, exit 2.
     std::thread::spawn(|| {
+        // CPU time consumed by this process, in clock ticks (utime + stime of /proc/self/stat)
+        fn cpu_ticks() -> u64 {
+            std::fs::read_to_string("/proc/self/stat")
+                .ok()
+                .and_then(|s| {
+                    let rest = s.rsplit_once(')')?.1.to_string();
+                    let f: Vec<&str> = rest.split_whitespace().collect();
+                    Some(f.get(11)?.parse::<u64>().ok()? + f.get(12)?.parse::<u64>().ok()?)
+                })
+                .unwrap_or(0)
+        }
         let mut last = (0u64, 0u64);
         let mut since = std::time::Instant::now();
+        let mut cpu_at_since = cpu_ticks();
         loop {
             std::thread::sleep(std::time::Duration::from_millis(500));
             let cur = (verif::global_tick(), CASE_SERIAL.load(Ordering::Relaxed));
             if cur != last || !IN_CASE.load(Ordering::Relaxed) || verif::sims_active() == 0 {
                 last = cur;
                 since = std::time::Instant::now();
+                cpu_at_since = cpu_ticks();
                 continue;
             }
             if since.elapsed().as_secs() >= 30 {
+                // A token holder that burns CPU is computing (a large join between two
+                // yield points, or a starved machine), not blocked: leave that to the
+                // per-case wall limit. Only a process that sits idle is a missing hook.
+                let used = cpu_ticks().saturating_sub(cpu_at_since);
+                if used > 200 {
+                    since = std::time::Instant::now();
+                    cpu_at_since = cpu_ticks();
+                    continue;
+                }
                 let mut res = CaseResult::new();
                 res.verdict = Verdict::HarnessError(format!(
                     "simulation stalled after site {}",
